@@ -348,6 +348,9 @@ func (c *c08) text(rs []rune, bucket string, level int) {
 	}
 	need := len(e.out)
 	if level == 1 && c.xl == 0 {
+		if c.nCase%2 == 1 && r.Quick {
+			return // quick tier: every second text of the big sweeps
+		}
 		// the exact fit into a destination the caller left full of 0xFF (D14 and the OR-ing packer in one call)
 		d0 := mkDst(need, 0xFF, r.Rng)
 		dst := append([]byte{}, d0...)
@@ -820,6 +823,22 @@ func corrC08(r *Run) {
 			c.textX(t, "output longer than the source (grow path of transform.Bytes)", 2, 2*b2i(ne%3 == 0), ne%4 == 0)
 			c.text(append(t, '\r'), "output longer than the source (grow path of transform.Bytes)", 1)
 		}
+	}
+
+	// ---- 4e. the other extreme: only two-octet characters, the UTF-8 text is more than twice as long as the packed
+	//      form (a decoder that sizes its output from the number of packed octets runs out of room)
+	var twoOctet []rune
+	for _, x := range stdRepertoire {
+		if x >= 0x80 && x < 0x800 && !isD16(x) {
+			twoOctet = append(twoOctet, x)
+		}
+	}
+	for n := 1; n <= r.N(26, 70); n++ {
+		t := make([]rune, n)
+		for i := range t {
+			t[i] = twoOctet[(i*7+n)%len(twoOctet)]
+		}
+		c.textX(t, "only two-octet characters (UTF-8 longer than twice the packed form)", 2, 2*b2i(n%3 != 1), n%5 == 0)
 	}
 
 	// ---- 5. random texts over the 137 characters (CR / ESC / '@' heavy at the end), some with a foreign character
